@@ -16,6 +16,9 @@ def bits_setIndex_guard : String := "i >= bA.Bits"
 /-- cond libs/bits/bit_array.go BitArray.ValidateBasic -/
 def bits_validate_elems_guard : String := "len(bA.Elems) != expected"
 
+/-- const types/params.go BlockPartSizeBytes -/
+def blockPartSizeBytes : Int := 65536
+
 /-- cond consensus/state.go State.finalizeCommit -/
 def c01_finalize_hash : String := "!block.HashesTo(blockID.Hash)"
 
@@ -149,7 +152,7 @@ def c05_replay_initchain_guard : String := "appBlockHeight == 0"
 def c05_replay_mock_loads_last_resp : Bool := true
 
 /-- has consensus/replay.go Handshaker.ReplayBlocks -/
-def c05_replay_store_ahead_case : Bool := true
+def c05_replay_store_ahead_case : Bool := false
 
 /-- cond consensus/replay.go Handshaker.ReplayBlocks -/
 def c05_replay_store_eq_state : String := "storeBlockHeight == stateBlockHeight"
@@ -691,6 +694,6 @@ def types_MaxBlockPartsCount : Int := 1601
 /-- const types/vote_set.go MaxVotesCount -/
 def types_MaxVotesCount : Int := 10000
 
-def factCount : Nat := 230
+def factCount : Nat := 231
 
 end Tmv.Facts
